@@ -22,7 +22,12 @@ for mp in sorted(glob.glob(os.path.join(VERIF, "seeded", "*", "meta.json"))):
             meta["suite_summary"] = rs.stdout.strip()
             meta["suite_passes"] = "598 passed" in rs.stdout and "failed" not in rs.stdout and "error" not in rs.stdout.lower()
             meta.setdefault("ran", []).append(f"pytest -n {jobs} src/grid/tests on the patched worktree -> {rs.stdout.strip()} [{time.time()-t0:.0f}s]")
-        meta["confirmed"] = bool(meta.get("demo_unchanged_exit") == 0 and meta.get("demo_changed_exit", 0) != 0 and meta["suite_passes"])
+        fresh = json.load(open(mp))  # re-read: another tool may have updated the check results meanwhile
+        fresh["suite_summary"], fresh["suite_passes"] = meta["suite_summary"], meta["suite_passes"]
+        if meta.get("ran") and str(meta["ran"][-1]).startswith("pytest"):
+            fresh.setdefault("ran", []).append(meta["ran"][-1])
+        fresh["confirmed"] = bool(fresh.get("demo_unchanged_exit") == 0 and fresh.get("demo_changed_exit", 0) != 0 and fresh["suite_passes"])
+        meta = fresh
         json.dump(meta, open(mp, "w"), indent=1)
         print(meta["id"], meta["suite_summary"], flush=True)
     finally:
